@@ -39,7 +39,19 @@ LEVEL_NOTE = 'Trusted: NumPy assignment semantics used by the shadow rules. Not 
 
 
 class Reject(Exception):
-    pass
+    """reason: 'fit' (wrong length / shape / name - the cases the statement lists) or 'value' (an element that cannot
+    be converted to the series' dtype: the statement only requires the invariants then, NumPy may assign partially)."""
+
+    def __init__(self, reason='fit'):
+        super().__init__(reason)
+        self.reason = reason
+
+
+def _shape_of(value):
+    try:
+        return np.array(value, dtype=object).shape
+    except Exception:  # noqa: BLE001
+        return None
 
 
 def rule_whole(cur, value, n):
@@ -47,16 +59,11 @@ def rule_whole(cur, value, n):
         try:
             arr = np.array(value, dtype=cur.dtype)
         except Exception:  # noqa: BLE001
-            raise Reject()
+            raise Reject('value' if _shape_of(value) == (n,) else 'fit')
         if arr.shape != (n,):
             raise Reject()
         return arr
-    tmp = cur.copy()
-    try:
-        tmp[:] = value
-    except Exception:  # noqa: BLE001
-        raise Reject()
-    return tmp
+    return rule_index(cur, slice(None), value)
 
 
 def rule_index(cur, index, value):
@@ -64,7 +71,15 @@ def rule_index(cur, index, value):
     try:
         tmp[index] = value
     except Exception:  # noqa: BLE001
-        raise Reject()
+        shape = _shape_of(value)
+        reason = 'fit'
+        if shape is not None:
+            try:
+                cur.copy()[index] = np.zeros(shape, dtype=cur.dtype)
+                reason = 'value'      # the shape fits; an element cannot be converted
+            except Exception:  # noqa: BLE001
+                reason = 'fit'
+        raise Reject(reason)
     return tmp
 
 
@@ -187,8 +202,8 @@ def check_case(case):
                 if op[1] in vs or op[1] in obj.__dict__['_attributes']:
                     raise Reject()
                 verdict = 'any'
-        except Reject:
-            verdict = 'reject'
+        except Reject as r:
+            verdict = 'reject' if r.reason == 'fit' else 'reject-value'
 
         out = CO.apply_op(obj, op, labels)
         oc = opclass(op)
@@ -203,6 +218,9 @@ def check_case(case):
                 d = snapshot.first_diff_key(before, snapshot.snapshot(obj))
                 if d:
                     res.fail(f'failed-assignment-changed-state/op={k}/operand={oc}', f'{detail}: raised {out.exc_name} but changed {d}')
+        elif verdict == 'reject-value':
+            if out.ok:
+                res.fail(f'accepted-unconvertible/op={k}/operand={oc}', f'{detail}: succeeded although an element cannot be converted')
         elif verdict == 'strict-reject':
             name = CO.pick_name(obj, op[1])
             if out.ok or not isinstance(out.exc, (AttributeError, NotImplementedError)):
